@@ -520,7 +520,8 @@ def conv_systematic(tier):
     """1-D affine accesses O[q] = I[a*q + b*s] * F[s], systematically: coefficient pairs x every loop order (unpartitioned: incl. the
     input's own rank W with the other projected) x partitioned output rank with W following x the legal level orders."""
     q = tier == "quick"
-    pairs = [(1, 1), (2, 1), (1, 2), (2, 2), (2, 4), (4, 2), (3, 1), (1, 3)] if q else [(a, b) for a in (1, 2, 3, 4) for b in (1, 2, 3, 4)]
+    pairs = [(1, 1), (2, 1), (1, 2), (2, 2), (2, 4), (4, 2), (3, 1), (1, 3), (1, -1), (2, -1), (2, -2)] if q else \
+        [(a, b) for a in (1, 2, 3, 4) for b in (1, 2, 3, 4)] + [(a, b) for a in (1, 2, 3) for b in (-1, -2)]
     out = []
 
     def t(c, v):
@@ -529,14 +530,17 @@ def conv_systematic(tier):
     for a, b in pairs:
         expr = "O[q] = I[%s + %s] * F[s]" % (t(a, "q"), t(b, "s"))
         decl = {"I": ["W"], "F": ["S"], "O": ["Q"]}
-        cfgs = [{"Q": Q, "S": S, "W": a * (Q - 1) + b * (S - 1) + 1} for Q, S in ([(3, 2), (4, 3)] if q else [(3, 2), (4, 3), (5, 3)])]
+        # extent of the accessed rank: the largest index a*(Q-1) + max(b, 0)*(S-1), plus one (negative indices simply do not exist)
+        def wext(Q, S):
+            return a * (Q - 1) + max(b, 0) * (S - 1) + 1
+        cfgs = [{"Q": Q, "S": S, "W": wext(Q, S)} for Q, S in ([(3, 2), (4, 3)] if q else [(3, 2), (4, 3), (5, 3)])]
         for lo in (["Q", "S"], ["S", "Q"], ["W", "Q"], ["W", "S"], ["Q", "W"], ["S", "W"], None):
             y = mk_yaml(decl, [expr], lo={"O": lo} if lo else None)
             out.append({"yaml": y, "configs": cfgs, "family": "affine-conv1", "key": y, "coeffs": (a, b)})
         for pstr, fam in (("uniform_shape(2)", "conv-us"), ("nway_shape(2)", "conv-nw")) + ((() if q else (("uniform_shape(3)", "conv-us"),))):
             for lo in (["Q1", "Q0", "S"], ["S", "Q1", "Q0"], ["Q1", "S", "Q0"], ["Q1", "W0", "Q0"]):
                 y = mk_yaml(decl, [expr], part={"O": {"Q": [pstr], "W": ["follow(Q)"]}}, lo={"O": lo})
-                cf = [{"Q": Q, "S": S, "W": a * (Q - 1) + b * (S - 1) + 1} for Q, S in ([(4, 2), (5, 3)] if q else [(3, 2), (4, 2), (5, 3)])]
+                cf = [{"Q": Q, "S": S, "W": wext(Q, S)} for Q, S in ([(4, 2), (5, 3)] if q else [(3, 2), (4, 2), (5, 3)])]
                 out.append({"yaml": y, "configs": cf, "family": fam, "key": y, "coeffs": (a, b), "lo": lo})
     # two levels on the index-math rank (known finding KF-CONV-2LEVEL; kept so that the finding is re-derived on every run)
     for lo in (["Q2", "Q1", "W0", "Q0"], ["Q2", "Q1", "S", "Q0"], ["S", "Q2", "Q1", "Q0"]):
@@ -563,6 +567,8 @@ F3BASES = [
     ("C[i, r] = T[i, j, k] * B[j, k, r]", {"T": "ijk", "B": "jkr", "C": "ir"}, "T"),
     ("Z[m, n] = A[j, k, m] * B[j, k, n]", {"A": "jkm", "B": "jkn", "Z": "mn"}, "A"),
     ("Z[m] = A[j, k, m] * B[k, j]", {"A": "jkm", "B": "kj", "Z": "m"}, "A"),
+    ("Z[q, m, n, j] = A[q, m, n, j] * B[q]", {"A": "qmnj", "B": "q", "Z": "qmnj"}, "A"),
+    ("Z[m, n, j] = A[m, n, j] * B[m, n, j]", {"A": "mnj", "B": "mnj", "Z": "mnj"}, "A"),
 ]
 
 
@@ -573,6 +579,8 @@ def gen_flat3(rng):
     out = expr.split("[")[0]
     vs = sorted(set("".join(decl.values())))
     tup = [c.upper() for c in decl[T]]
+    if len(tup) > 3:
+        tup = tup[-3:]
     if rng.random() < 0.3:
         rng.shuffle(tup)
     fname = "".join(tup)
@@ -585,3 +593,96 @@ def gen_flat3(rng):
     lo = interleave(rng, [flevels] + [[o] for o in others])
     y = mk_yaml(updecl(decl), [expr], part={out: part}, lo={out: lo})
     return {"yaml": y, "configs": [{v.upper(): 2 for v in vs}], "family": "flatten3", "key": y, "cap": 30}
+
+
+def gen_st_affine(rng):
+    """Spacetime on Einsums with affine accesses, unpartitioned or with the index-math rank partitioned and the input following."""
+    kind = rng.choice(["sub", "sub", "conv", "sub2"])
+    if kind == "sub":
+        a = rng.choice([2, 2, 3])
+        decl, expr, out = {"A": ["K"], "Z": ["M"]}, "Z[m] = A[%d*m]" % a, "Z"
+        ranks, partrank, follower = ["M"], "M", "K"
+        cfg = {"M": 4, "K": a * 3 + 1}
+    elif kind == "sub2":
+        decl, expr, out = {"A": ["K", "N"], "B": ["N"], "Z": ["M", "N"]}, "Z[m, n] = A[2*m, n] * B[n]", "Z"
+        ranks, partrank, follower = ["M", "N"], "M", "K"
+        cfg = {"M": 3, "N": 2, "K": 5}
+    else:
+        decl, expr, out = {"I": ["W"], "F": ["S"], "O": ["Q"]}, "O[q] = I[q + s] * F[s]", "O"
+        ranks, partrank, follower = ["Q", "S"], "Q", "W"
+        cfg = {"Q": 4, "S": 2, "W": 5}
+    part = {}
+    lv = {r: [r] for r in ranks}
+    if rng.random() < 0.7:
+        part = {partrank: ["uniform_shape(%d)" % rng.choice([2, 3])], follower: ["follow(%s)" % partrank]}
+        lv[partrank] = [partrank + "1", partrank + "0"]
+    lo = interleave(rng, [lv[r] for r in ranks])
+    space = [r for r in lo if rng.random() < 0.4]
+    time_ = [r for r in lo if r not in space]
+
+    def sty(r):
+        return r + rng.choice(["", ".pos", ".coord", ".coord"])
+
+    st = {out: {"space": [sty(r) for r in space], "time": [sty(r) for r in time_], "opt": "slip" if rng.random() < 0.3 else None}}
+    y = mk_yaml(decl, [expr], part={out: part}, lo={out: lo}, st=st)
+    return {"yaml": y, "configs": [cfg], "family": "spacetime-affine", "key": y, "stamped": True, "no_st_yaml": mk_yaml(decl, [expr], part={out: part}, lo={out: lo})}
+
+
+def rename_rank(sp, old, new):
+    """The same specification with rank `old` called `new` (ranks may be called anything: I, P, ... -- names that collide with the
+    compiler's own suffix conventions are of particular interest)."""
+    y = sp["yaml"]
+    head, rest = y.split("  expressions:\n", 1)
+    exprs, tail = rest.split("mapping:", 1)
+    exprs = re.sub(r"(?<![A-Za-z0-9_])%s(?![A-Za-z0-9_(\[])" % old.lower(), new.lower(), exprs)
+    y2 = head + "  expressions:\n" + exprs + "mapping:" + tail
+    y2 = re.sub(r"(?<![a-z])%s(?=[A-Z0-9, \]\).:\n]|$)" % old, new, y2)
+    out = dict(sp, yaml=y2, key=sp["key"] + "#%s->%s" % (old, new), family=sp["family"] + "-renamed")
+    out["configs"] = [{(k.replace(old, new) if re.fullmatch(r"[A-Z]+[0-9]*", k) and k not in ("A", "B", "C", "D", "E", "Z") else k): v for k, v in c.items()} for c in sp["configs"]]
+    if "no_st_yaml" in out:
+        out.pop("no_st_yaml")
+    return out
+
+
+def renamed(gen, old="M", new="I"):
+    def g(rng):
+        sp = gen(rng)
+        return None if sp is None else rename_rank(sp, old, new)
+    return g
+
+
+def gen_cascade_conv(rng):
+    """Cascades in which an Einsum with index arithmetic precedes Einsums that re-use its rank names without that relation."""
+    decl = {"I": ["W"], "F": ["S"], "O": ["Q"], "G": ["Q"], "T": ["Q"], "U": ["Q", "S"], "Z": ["Q"]}
+    exprs = ["O[q] = I[q + s] * F[s]"]
+    part, lo = {}, {}
+    n = rng.choice([1, 2, 2])
+    prev = "O"
+    for i in range(n):
+        out = "Z" if i == n - 1 else "T"
+        kind = rng.choice(["point", "outer", "scale"])
+        if kind == "point":
+            exprs.append("%s[q] = %s[q] * G[q]" % (out, prev))
+            vars_ = ["Q"]
+        elif kind == "outer" and out == "Z":
+            exprs.append("U[q, s] = %s[q] * F[s]" % prev)
+            out = "U"
+            vars_ = ["Q", "S"]
+        else:
+            exprs.append("%s[q] = %s[q] * b" % (out, prev))
+            vars_ = ["Q"]
+        c = rng.random()
+        if c < 0.4:
+            part[out] = {"Q": ["uniform_shape(%d)" % rng.choice([2, 3])]}
+        elif c < 0.6:
+            part[out] = {"Q": ["uniform_occupancy(%s.%d)" % (prev, rng.choice([1, 2]))]}
+        elif c < 0.7 and len(vars_) == 2:
+            part[out] = {"(Q, S)": ["flatten()"]}
+        if out in part and "(Q, S)" not in part[out]:
+            lv = [levels(v, len(part[out].get(v, []))) for v in vars_]
+            lo[out] = interleave(rng, lv)
+        prev = out if out != "U" else prev
+    used = set(re.findall(r"\b([A-Z])\[", " ".join(exprs)))
+    decl = {t: r for t, r in decl.items() if t in used}
+    y = mk_yaml(decl, exprs, part=part, lo=lo)
+    return {"yaml": y, "configs": [{"Q": 4, "S": 2, "W": 5}], "family": "cascade-conv", "key": y}
